@@ -622,6 +622,11 @@ fn custom_mutations(name: &str, full: &[u8], rng: &mut Rng, exhaustive: bool) ->
 			let mut b = full[..pos + 2 + declared].to_vec(); b.extend_from_slice(&extra); b.extend_from_slice(&full[pos + 2 + declared..]);
 			if declared + d <= 0xffff { set_u16(&mut b, pos, (declared + d) as u16); out.push((b, "insert-descriptor")); }
 		}
+	} else if name == "TxAddInput" {
+		// channel_id, serial_id, then the u16 prevtx length (oracle-only message: no model answer, the declared-length oracle decides)
+		first_len_field = 40; fields16 = vec![40];
+		let declared = get_u16(full, 40) as usize;
+		boundaries = vec![42, 42 + declared, 42 + declared + 4, 42 + declared + 8];
 	} else if name == "OnionMessage" {
 		first_len_field = 33; fields16 = vec![33];
 		type_bytes.push(36);   // the tag byte of the packet's public key
@@ -748,8 +753,8 @@ fn main() {
 	let mut rng = Rng::new(args.seed);
 	let g = G { secp: Secp256k1::new() };
 	let mut run = Run { rec, fails: vec![], g: &g, oracle_only: 0 };
-	// thorough: 560 rounds ≈ 4.6 M cases (the Lean driver answers ~8 k cases/s: ≈ 10 min after the ≈ 5 min harness run)
-	let reps: u64 = if args.thorough { 560 } else { 10 } * args.scale;
+	// thorough: 480 rounds ≈ 4 M cases (the Lean driver answers ~8 k cases/s: ≈ 10 min after the ≈ 5 min harness run)
+	let reps: u64 = if args.thorough { 480 } else { 10 } * args.scale;
 	let n_mut: u64 = if args.thorough { 60 } else { 40 };
 
 	// type ids of the covered messages, from the real reader
@@ -906,6 +911,15 @@ fn main() {
 				Err(p) => run.rec.oracle_fail(format!("panic encoding a QueryShortChannelIds with 8192 short_channel_ids: {}", p.replace('\n', " "))),
 				Ok(false) => run.rec.oracle_fail("decode(encode(m)) != m for a QueryShortChannelIds with 8192 short_channel_ids".into()),
 				Ok(true) => {},
+			}
+		}
+		// TxAddInput (oracle only): the same structure-aware stream around its u16 prevtx length
+		if !args.thorough || rep % 4 == 0 {
+			for k in 0..2 {
+				let st = rng.next();
+				let full = build("TxAddInput", &g, &mut Rng(st), rng.below(2) as u32, &mut run.fails);
+				run.case_dec("TxAddInput", &full, "valid");
+				for (b, kind) in custom_mutations("TxAddInput", &full, &mut rng, k == 0) { run.case_dec("TxAddInput", &b, kind); }
 			}
 		}
 		// unknown / cfg-gated / short type ids
